@@ -83,7 +83,7 @@ def tfrNext (a : TfrAbs) : TEv → TfrAbs
   | .start _ => { a with inTest := true }
   | .stop _ => { a with inTest := false, t := (0, 0) }
   | .tags n g => if a.inTest then { a with t := mergeTags a.t (n, g) } else { a with g := mergeTags a.g (n, g) }
-  | .out _ => { a with t := (0, 0) }
+  | .out _ => a
   | .stopRun => a
 
 def tagsIf (p : TagSet × TagSet) : List TEv := if anyTags p then [.tags p.1 p.2] else []
@@ -110,7 +110,7 @@ def wfT : Nat → Nat → List TEv → Bool
   | p, cur, x :: e =>
     match x with
     | .start t => p == 0 && wfT 1 t e
-    | .out t => (p == 1 && t == cur && wfT 2 t e) || (p == 0 && wfT 3 t e)
+    | .out t => ((p == 1 || p == 2) && t == cur && wfT 2 t e) || (p == 0 && wfT 3 t e)
     | .stop t => (p == 2 || p == 3) && t == cur && wfT 0 0 e
     | .run => p == 0 && wfT p cur e
     | .stopRun => p == 0 && wfT p cur e
@@ -137,7 +137,8 @@ def Rel (p : Nat) (R : TagCtx) (a : TfrAbs) : Prop :=
   | 0 => a.inTest = false ∧ a.t = (0, 0) ∧ R = { cur := TagSet.change 0 a.g.1 a.g.2, parents := [] }
   | 1 => a.inTest = true ∧ R = { cur := TagSet.change (TagSet.change 0 a.g.1 a.g.2) a.t.1 a.t.2,
                                   parents := [TagSet.change 0 a.g.1 a.g.2] }
-  | 2 => a.inTest = true ∧ R.parents = [TagSet.change 0 a.g.1 a.g.2]
+  | 2 => a.inTest = true ∧ R = { cur := TagSet.change (TagSet.change 0 a.g.1 a.g.2) a.t.1 a.t.2,
+                                  parents := [TagSet.change 0 a.g.1 a.g.2] }
   | _ => a.inTest = false ∧ a.t = (0, 0) ∧ R = { cur := TagSet.change 0 a.g.1 a.g.2, parents := [] }
 
 theorem rel0 {R : TagCtx} {a : TfrAbs} (h : Rel 0 R a) :
@@ -148,7 +149,8 @@ theorem rel1 {R : TagCtx} {a : TfrAbs} (h : Rel 1 R a) :
     R = { cur := TagSet.change (TagSet.change 0 a.g.1 a.g.2) a.t.1 a.t.2, parents := [TagSet.change 0 a.g.1 a.g.2] } :=
   ⟨h.1, h.2.1, h.2.2⟩
 theorem rel2 {R : TagCtx} {a : TfrAbs} (h : Rel 2 R a) :
-    a.g.1 &&& a.g.2 = 0 ∧ a.t.1 &&& a.t.2 = 0 ∧ a.inTest = true ∧ R.parents = [TagSet.change 0 a.g.1 a.g.2] :=
+    a.g.1 &&& a.g.2 = 0 ∧ a.t.1 &&& a.t.2 = 0 ∧ a.inTest = true ∧
+    R = { cur := TagSet.change (TagSet.change 0 a.g.1 a.g.2) a.t.1 a.t.2, parents := [TagSet.change 0 a.g.1 a.g.2] } :=
   ⟨h.1, h.2.1, h.2.2⟩
 theorem rel3 {R : TagCtx} {a : TfrAbs} (h : Rel 3 R a) :
     a.g.1 &&& a.g.2 = 0 ∧ a.inTest = false ∧ a.t = (0, 0) ∧ R = { cur := TagSet.change 0 a.g.1 a.g.2, parents := [] } :=
@@ -163,7 +165,8 @@ theorem mk1 {R : TagCtx} {a : TfrAbs} (h1 : a.g.1 &&& a.g.2 = 0) (h1' : a.t.1 &&
     (h4 : R = { cur := TagSet.change (TagSet.change 0 a.g.1 a.g.2) a.t.1 a.t.2, parents := [TagSet.change 0 a.g.1 a.g.2] }) :
     Rel 1 R a := ⟨h1, h1', h2, h4⟩
 theorem mk2 {R : TagCtx} {a : TfrAbs} (h1 : a.g.1 &&& a.g.2 = 0) (h1' : a.t.1 &&& a.t.2 = 0) (h2 : a.inTest = true)
-    (h4 : R.parents = [TagSet.change 0 a.g.1 a.g.2]) : Rel 2 R a := ⟨h1, h1', h2, h4⟩
+    (h4 : R = { cur := TagSet.change (TagSet.change 0 a.g.1 a.g.2) a.t.1 a.t.2, parents := [TagSet.change 0 a.g.1 a.g.2] }) :
+    Rel 2 R a := ⟨h1, h1', h2, h4⟩
 
 theorem wfT_big : ∀ (e : List TEv) (cur k : Nat), wfT (k + 4) cur e = false
   | [], _, _ => by simp [wfT]
@@ -233,22 +236,24 @@ theorem tfr_seen : ∀ (e : List TEv) (p cur : Nat) (R : TagCtx) (a : TfrAbs),
           · simpa [tfrNext, h2] using h1
           · simp only [tfrNext, h2]; exact merge_disjoint a.t n g h1'
           · simp [tfrNext, h2]
-          · simpa [tfrNext, h2, TagCtx.change] using h4
+          · simp only [tfrNext, h2, ite_true, h4, TagCtx.change, change_merge _ _ _ _ hng]
         | 3, h, _ => exact absurd rfl h
         | (k + 4), _, hr => rw [wfT_big] at hw; cases hw
       | out t =>
         simp only [wfT, Bool.or_eq_true, Bool.and_eq_true, beq_iff_eq] at hw
         simp only [tfrVT, tfrEmitT, tfrNext, List.append_assoc, List.cons_append, seenT, stepT,
           seenT_tagsIf, List.nil_append]
-        rcases hw with ⟨⟨rfl, _⟩, hw⟩ | ⟨rfl, hw⟩
-        · obtain ⟨h1, h1', h2, h4⟩ := rel1 hr
+        rcases hw with ⟨⟨hp, _⟩, hw⟩ | ⟨rfl, hw⟩
+        · -- the first or a further outcome of a started test: the test's tag changes are still buffered
+          have hr' : Rel 1 R a := by rcases hp with rfl | rfl <;> exact hr
+          obtain ⟨h1, h1', h2, h4⟩ := rel1 hr'
           congr 1
           · simp [h4, TagCtx.push, TagCtx.change]
-          · exact tfr_seen e 2 t _ _ (mk2 h1 zero_and_zero h2 (by simp [h4])) hw hd.2
+          · exact tfr_seen e 2 t _ _ (mk2 h1 h1' h2 h4) hw hd.2
         · obtain ⟨h1, h2, h3, h4⟩ := rel0 hr
           congr 1
           · simp [h4, h3, TagCtx.push, TagCtx.change, change_zero]
-          · exact tfr_seen e 3 t _ _ (mk3 h1 h2 rfl (by simp [h4])) hw hd.2
+          · exact tfr_seen e 3 t _ _ (mk3 h1 h2 h3 (by simp [h4])) hw hd.2
 
 /-! ### the view through a `ThreadsafeForwardingResult` is again a well-formed, disjoint history with the same outcomes -/
 theorem wfT_tagsIf (p : TagSet × TagSet) (cur : Nat) (e : List TEv) : wfT 1 cur (tagsIf p ++ e) = wfT 1 cur e := by
@@ -279,7 +284,7 @@ theorem tfrNext_disj (a : TfrAbs) (x : TEv) (hg : a.g.1 &&& a.g.2 = 0) (ht : a.t
   | stopRun => exact ⟨hg, ht⟩
   | start t => exact ⟨hg, ht⟩
   | stop t => exact ⟨hg, zero_and_zero⟩
-  | out t => exact ⟨hg, zero_and_zero⟩
+  | out t => exact ⟨hg, ht⟩
 
 theorem tfrVT_disj : ∀ (e : List TEv) (a : TfrAbs), a.g.1 &&& a.g.2 = 0 → a.t.1 &&& a.t.2 = 0 → e.all disjT = true →
     (tfrVT a e).all disjT = true
@@ -447,7 +452,9 @@ theorem e2s_seen : ∀ (e : List TEv) (p cur : Nat) (R : TagCtx) (a : E2sAbs),
       | out t =>
         simp only [wfT, Bool.or_eq_true, Bool.and_eq_true, beq_iff_eq] at hw
         have hf : inp.filter (· != t) = [] := by
-          rcases hw with ⟨⟨rfl, rfl⟩, _⟩ | ⟨rfl, _⟩ <;> simp [hi]
+          rcases hw with ⟨⟨hp, rfl⟩, _⟩ | ⟨rfl, _⟩
+          · rcases hp with rfl | rfl <;> simp [hi]
+          · simp [hi]
         have fin : (seenT C0 (e2sVT ⟨true, ctx, []⟩ e) = seenT ctx e ∧ sentT ⟨true, ctx, []⟩ e = seenT ctx e ∧
             outsT (e2sVT ⟨true, ctx, []⟩ e) = outsT e) →
             seenT C0 (e2sVT ⟨true, ctx, inp⟩ (.out t :: e)) = seenT ctx (.out t :: e) ∧
@@ -459,7 +466,7 @@ theorem e2s_seen : ∀ (e : List TEv) (p cur : Nat) (R : TagCtx) (a : E2sAbs),
           have := ih.2.2
           simp only [outsT, List.filterMap_append, phBlock, List.filterMap_cons, List.filterMap_nil] at this ⊢
           simp [this]
-        rcases hw with ⟨⟨rfl, rfl⟩, hw⟩ | ⟨rfl, hw⟩
+        rcases hw with ⟨⟨_, rfl⟩, hw⟩ | ⟨rfl, hw⟩
         · exact fin (e2s_seen e 2 t ctx ⟨true, ctx, []⟩ ⟨rfl, rfl, by simp⟩ hw)
         · exact fin (e2s_seen e 3 t ctx ⟨true, ctx, []⟩ ⟨rfl, rfl, by simp⟩ hw)
 
